@@ -1292,12 +1292,12 @@ def stream_spectra(ctx, ncases):
 
 
 def run(ctx):
-    stream_enc(ctx, ctx.n(300, 4000))
-    stream_axis(ctx, ctx.n(450, 6000), ctx.n(60, 600))
-    stream_grid(ctx, ctx.n(120, 1500))
-    stream_grid2(ctx, ctx.n(60, 1000))
-    stream_points(ctx, ctx.n(150, 2000))
-    stream_spectra(ctx, ctx.n(180, 2500))
+    stream_enc(ctx, ctx.n(300, 10000))
+    stream_axis(ctx, ctx.n(450, 15000), ctx.n(60, 1500))
+    stream_grid(ctx, ctx.n(120, 4000))
+    stream_grid2(ctx, ctx.n(60, 2500))
+    stream_points(ctx, ctx.n(150, 5000))
+    stream_spectra(ctx, ctx.n(180, 6000))
 
 
 def replay(ctx, obj):
@@ -1317,8 +1317,29 @@ def replay(ctx, obj):
     print(json.dumps(res)[:4000])
 
 
-READY = False
-LEVEL_TEXT = "in progress"
-LEVEL_NOTE = "in progress"
-TECHNIQUE = "Coq proof + extracted-model correspondence + exact-rational oracles"
+READY = True
+LEVEL_TEXT = ("Theorems (Coq, all sorted grids of any length, all targets, all NaN patterns, any number of passive positions): "
+              "searchsorted-right specification; bracketing indices and weight for a target inside the grid; value at a node = node "
+              "value (also the last node, whatever the neighbours hold); between two present nodes (1-t) f_i + t f_(i+1) with t in [0,1), "
+              "hence between the neighbours; exact for linear data on the whole closed range; outside the grid missing in both modes; "
+              "NaN rule (missing neighbour dropped and renormalised iff the present weight exceeds one half, missing node gives missing); "
+              "nearest mode (left node up to and including the mid point, right node beyond); descending grid = interpolation on the "
+              "reversed grid (all targets, all NaN patterns); pass-through of variables without the coordinate; every output of the "
+              "corner engine is a convex combination of the participating corners; the 2^N corner weights are non negative and sum to one "
+              "(induction over the axes), N-d interpolation of finite data is bounded by the corner values, bilinear formula for two axes; "
+              "interpolate_dataset_grid = composition of the axis steps (bilinear for targets inside) and, as the code stands, one target "
+              "outside the first grid blanks every output; 1D spectra interpolate energy-weighted moments, zero energy and targets outside "
+              "give the extrapolation value. The model is tied to /repo by running the extracted model and enclosing_points_1d, "
+              "interpolation_weights_1d, interpolate_dataset_along_axis / _grid, interpolate_track_data_arrray / interpolate_at_points and "
+              "the spectrum wrappers on the same generated inputs; an independent exact-rational evaluator is the failing-input search.")
+LEVEL_NOTE = ("Not proved: nothing about floating point rounding (the extracted model runs in binary64; comparison at 1e-9 relative); "
+              "interp_descending is proved for linear mode (in nearest mode an exact mid point goes to the first node in storage order, "
+              "so the reversed grid differs there by design); the N-axes results are about the corner engine with the per-axis weights as "
+              "hypotheses plus the two-axis instance; the spectrum theorem covers one axis (the two-axis call is the composition checked by "
+              "execution). Validated only by execution: xarray/numpy layout (rank, axis position, dims order, fancy indexing, datetime64 "
+              "arithmetic), the choice of periodic variables by name, x/0 = inf in the moment division (model: missing). "
+              "Trusted: Coq kernel, extraction (R as binary64), harness tolerances. Real-number axioms of the Coq standard library only.")
+TECHNIQUE = "Coq proof (induction over grids, corner lists and axes) + extracted-model correspondence + exact-rational oracles"
 DESIGN_REF = "DESIGN.md section 5 C13"
+TRUSTED = ["np.searchsorted(side='right') on a sorted vector is modelled as the count of entries <= x (theorem searchsorted_right_spec) and validated by execution",
+           "np.rint is modelled as round-half-to-even from Int_part; numpy's float modulo as x - floor(x/p)*p"]
